@@ -184,3 +184,12 @@ impl crate::fdl::FdlApplication for DpScanner {
         }
     }
 }
+
+/// Verification hook (cargo feature `verif-hooks`): read-only view of the scanner's station set.
+#[cfg(feature = "verif-hooks")]
+impl DpScanner {
+    /// Addresses currently recorded as known peripherals, ascending.
+    pub fn verif_iter_stations(&self) -> impl Iterator<Item = usize> + '_ {
+        self.stations.iter_ones()
+    }
+}
